@@ -416,7 +416,7 @@ def gen_events(tape, n_cons, n_events, *, strictly_increasing=None, out_of_range
         if tape.chance(9, 20) or not pubs:
             if pubs:
                 tpush = tpush + tape.choice(GAPS)
-            val = val + tape.choice([1, 3, -2, 10, 0.5])
+            val = val + tape.choice([1, 3, -2, 10, 0.5, 0, 0, 0])      # also stretches of equal publications
             events.append(["PUSH", tpush, val])
             pubs.append(tpush)
         else:
